@@ -81,6 +81,11 @@ Run(T, p, B) ==
             [] k = "reap" ->
                  IF T.ph[p].c \in B.rp
                  THEN Run(Apply(T, p, 0), p, [B EXCEPT !.rp = @ \ {T.ph[p].c}]) ELSE stop
+            [] k = "pick" ->
+                 \* which member of the pipeline the shell waits for next shows in what it
+                 \* does next: the member it reaps, or whose stop / continue it acknowledges
+                 LET cand == PipeLeft(T.ph[p]) \cap (B.rp \cup B.ak)
+                 IN IF cand # {} THEN Run(Apply(T, p, CHOOSE c \in cand : TRUE), p, B) ELSE stop
             [] k = "reapany" ->
                  IF ChangedKids(T, p) \cap B.rp # {}
                  THEN LET c == CHOOSE c \in ChangedKids(T, p) \cap B.rp : TRUE
